@@ -387,6 +387,8 @@ class Ref:
             v = fold(st.elems[mark:])
             if len(st.elems) == mark or self.vl != vl0:
                 self.nonw.add('name-over-valueless')
+            if len(st.elems) != mark + 1 or self.vl != vl0:
+                self.triggers.add('named-not-single')
             prev = st.ast.get(e.n)
             if prev is not None and prev != [] and (isopen(prev) or isopen(v)):
                 self.nonw.add('rebind-open-list')
@@ -402,6 +404,8 @@ class Ref:
             v = fold(st.elems[mark:])
             if len(st.elems) == mark or self.vl != vl0:
                 self.nonw.add('name-over-valueless')
+            if len(st.elems) != mark + 1 or self.vl != vl0:
+                self.triggers.add('named-not-single')
             if '@' in st.ast:
                 self.nonw.add('nested-override')
             if isinstance(e, OverList) and '@' not in st.ast:
